@@ -53,7 +53,8 @@ WF_IMAGES = [(30.0, 30.0, 100.0, 200.0), (210.0, -30.0, 1.0, 2.0), (300.0, 20.0,
 def workflow_run(args):
     """Real run: toasty.tile_fits in TOAST mode on tiny FITS images, then read EVERYTHING back with astropy:
     the finite data range of every leaf file (ground truth), the cards of every tile, the Builder, the WTML."""
-    scratch, order, start, parallel = args
+    scratch, order, start, parallel = args[:4]
+    tan_shape = args[4] if len(args) > 4 else None      # TAN route: one image of this (height, width), depth chosen by toasty
     repo.setup()
     import glob
     import os
@@ -69,21 +70,27 @@ def workflow_run(args):
     n = 24
     for k in order:
         ra, dec, lo, hi = WF_IMAGES[k]
+        ny, nx = tan_shape or (n, n)
         w = WCS(naxis=2)
         w.wcs.ctype = ["RA---TAN", "DEC--TAN"]
         w.wcs.crval = [ra, dec]
-        w.wcs.crpix = [n / 2 + 0.5, n / 2 + 0.5]
-        w.wcs.cdelt = [-0.1, 0.1]
-        data = np.linspace(lo, hi, n * n, dtype=np.float32).reshape((n, n))
+        w.wcs.crpix = [nx / 2 + 0.5, ny / 2 + 0.5]
+        w.wcs.cdelt = [-0.1, 0.1] if tan_shape is None else [-0.001, 0.001]
+        data = np.linspace(lo, hi, ny * nx, dtype=np.float32).reshape((ny, nx))
         data[3, 5] = np.nan
         path = os.path.join(work, "img%d.fits" % k)
         fits.writeto(path, data, header=w.to_header(), overwrite=True)
         paths.append(path)
     out = os.path.join(work, "tiled")
-    obs = {"order": list(order), "start": start, "parallel": parallel, "error": None, "leaves": {}, "tiles": {}}
+    obs = {"order": list(order), "start": start, "parallel": parallel, "error": None, "leaves": {}, "tiles": {},
+           "route": "TOAST" if tan_shape is None else "TAN %dx%d" % (tan_shape[1], tan_shape[0])}
     try:
         from toasty import TilingMethod, tile_fits
-        _dir, bld = tile_fits(fits=paths, out_dir=out, tiling_method=TilingMethod.TOAST, parallel=parallel, override=True, start=start)
+        if tan_shape is None:
+            _dir, bld = tile_fits(fits=paths, out_dir=out, tiling_method=TilingMethod.TOAST, parallel=parallel, override=True, start=start)
+        else:
+            _dir, bld = tile_fits(fits=paths, out_dir=out, tiling_method=TilingMethod.TAN, parallel=parallel, override=True)
+            start = obs["start"] = int(bld.imgset.tile_levels)
         obs["imgset"] = (float(bld.imgset.data_min), float(bld.imgset.data_max))
     except BaseException as e:  # noqa
         obs["error"] = repr(e)
@@ -120,14 +127,19 @@ def workflow_cases(ctx, quick):
         runs += [(ctx.scratch, order, 4, 1) for order in itertools.permutations(range(3))]
         runs += [(ctx.scratch, order, 2, 1) for order in itertools.permutations(range(2))]
         runs += [(ctx.scratch, (0, 1), 3, 2), (ctx.scratch, (2, 0, 1), 4, 2)]
+    # the TAN route: one image that fits into a single 256 x 256 tile (a depth-0 pyramid: the leaf IS the root) and one that
+    # needs one more level
+    runs += [(ctx.scratch, (0,), 0, 1, (80, 100)), (ctx.scratch, (1,), 0, 1, (260, 300))]
+    if not quick:
+        runs += [(ctx.scratch, (2,), 0, 1, (256, 256)), (ctx.scratch, (0,), 0, 1, (30, 40)), (ctx.scratch, (1,), 0, 1, (600, 520))]
     with cf.ProcessPoolExecutor(max_workers=8, mp_context=mp.get_context("fork"), initializer=base._quiet_worker) as ex:
         observed = list(ex.map(workflow_run, runs))
     tasks = {}
     for i, obs in enumerate(observed):
         ctx.count()
         if obs["error"]:
-            ctx.violation("C14:workflow-raised:fits", "tile_fits (TOAST, images %s, start %d, parallel %d) raised %s"
-                          % (obs["order"], obs["start"], obs["parallel"], obs["error"]), {"order": obs["order"], "start": obs["start"]})
+            ctx.violation("C14:workflow-raised:fits", "tile_fits (%s, images %s, start %d, parallel %d) raised %s"
+                          % (obs["route"], obs["order"], obs["start"], obs["parallel"], obs["error"]), {"order": obs["order"], "start": obs["start"]})
             continue
         vals = sorted(set(v for r in obs["leaves"].values() if r for v in r))
         rank = dict((v, k) for k, v in enumerate(vals))
@@ -138,7 +150,7 @@ def workflow_cases(ctx, quick):
                 leaves[pos] = (((1, 0), ()), ((), ()))
             else:
                 leaves[pos] = (((rank[r[0]],), (rank[r[1]],)), ((), ()))
-        if len(leaves) < len(obs["order"]):
+        if len(leaves) < len(obs["order"]) or not leaves:
             ctx.machinery("workflow run %s produced only %d leaves" % (obs["order"], len(leaves)))
         case = {"id": 9000 + i, "T": 2, "depth": obs["start"], "fmt": "fits", "dtag": "f4", "mode": "Float", "run": "workflow",
                 "keepu": False, "leaves": leaves, "stale": set(), "live": set(leaves), "sv": (0,), "scale": 1.0,
@@ -154,7 +166,7 @@ def workflow_compare(meta, rec):
     import numpy as np
     obs, vals = meta["obs"], meta["rankvals"]
     out = []
-    what = "tile_fits TOAST images %s start %d parallel %d" % (obs["order"], obs["start"], obs["parallel"])
+    what = "tile_fits %s images %s start %d parallel %d" % (obs["route"], obs["order"], obs["start"], obs["parallel"])
 
     def add(key, msg):
         out.append(("C14", "V", key, "%s [%s]" % (msg, what)))
@@ -203,6 +215,17 @@ def run(ctx):
     tasks = [{"name": "MCC14enum", "T": 2, "depth": 1, "expr": ENUM_EXPR_QUICK if quick else ENUM_EXPR_THOROUGH,
               "family": "each of the 4 leaves absent or one of %s, bottom-up" % ("3 matrices" if quick else "10 matrices (11^4 populations)")}]
     tasks += workflow_cases(ctx, quick)
+    # depth-0 pyramids (a single tile: the leaf is the root) through Builder.cascade + WTML
+    d0 = []
+    for i, (dtag, shape) in enumerate([("f4", None), ("f8", "zero-min"), ("i2", None), ("f4", "inf-mix")] + ([] if quick else [("i4", None), ("f8", "zero-max")])):
+        c = base.make_case(ctx.rng, 7000 + i, 2, 0, "fits", dtag, run="builder", pleaf=1.0, stale_p=0.0, keepu=False, shape=shape, rewrite_p=0.3)
+        if c["has_finite"]:
+            d0.append(c)
+    wf0 = [t for t in tasks if t["name"] == "MCC14wf0"]
+    if wf0:
+        wf0[0]["cases"] += d0           # same T and depth as the workflow's single-tile cases: one TLC run
+    else:
+        tasks.append({"name": "MCC14d0", "T": 2, "depth": 0, "cases": d0, "chunk": 60})
     tasks += base.plan_binding(ctx, "C14", PLAN, PARALLEL_PLAN, only_fits=True, builder_runs=14 if quick else 150,
                                allow_keepu=False, rewrite_p=0.35)
     def enum_jobs(t, recs):
